@@ -21,6 +21,7 @@ from __future__ import annotations
 import contextlib
 import io
 import re
+import time
 import traceback
 
 import numpy as np
@@ -445,6 +446,7 @@ def run(job, res):
     the_params, the_grads = params, grads
 
   # ---- InitState ------------------------------------------------------------------
+  t0 = time.time()
   try:
     with _quiet():
       state0 = init()
@@ -453,6 +455,7 @@ def run(job, res):
   except Exception as e:       # pylint: disable=broad-except
     raise Failure("init", e)
   res["layout"] = sig(state0, strip)
+  res["secs"]["init"] = round(time.time() - t0, 2)
 
   # ---- sharded: the three descriptions ------------------------------------------------
   if mode == "shard":
@@ -479,6 +482,7 @@ def run(job, res):
       clauses.append({"clause": "sharded_pspec", "path": "rank", "detail": bad})
 
   # ---- Update x T -----------------------------------------------------------------------
+  t0 = time.time()
   state = state0
   for t in range(T):
     try:
@@ -503,7 +507,9 @@ def run(job, res):
     state = new_state
     res["nupd"] = t + 1
 
+  res["secs"]["updates"] = round(time.time() - t0, 2)
   # ---- the state as a lax.scan carry --------------------------------------------------------
+  t0 = time.time()
   if job.get("scan", True) and not clauses:
     stacked = jax.tree.map(lambda *xs: jnp.stack(xs), *grads)
     try:
@@ -528,6 +534,7 @@ def run(job, res):
         jax.block_until_ready(us)
     except Exception as e:     # pylint: disable=broad-except
       raise Failure("scan", e)
+    res["secs"]["scan"] = round(time.time() - t0, 2)
     if not _same_layout(sT, state0):
       clauses.append({"clause": "scan_carry", "path": "",
                       "detail": "final carry layout differs from the initial state"})
@@ -558,13 +565,15 @@ def _pspec_rank_mismatch(state, pspec):
 
 def handle(job):
   res = {"outcome": "ok", "phase": "done", "step": None, "error": None, "layout": None,
-         "clauses": [], "nupd": 0}
+         "clauses": [], "nupd": 0, "secs": {}}
+  t00 = time.time()
   try:
     run(job, res)
   except Failure as f:
     e = f.exc
     res.update(outcome=core.classify_exception(e), phase=f.phase, step=f.step, error=_err(e))
   jax.clear_caches()
+  res["secs"]["total"] = round(time.time() - t00, 2)
   return res
 
 
